@@ -9,9 +9,9 @@ for sid in sys.argv[2:]:
     prop = meta["property"]
     patch = f"{ROOT}/seeded/{sid}/patch.diff"
     t0 = time.time()
-    if lane == "lane2":
-        out = "/tmp/lane2/out"
-        p = subprocess.run([f"{ROOT}/tools/lane2.sh", patch, prop], stdout=subprocess.PIPE, stderr=subprocess.STDOUT, text=True)
+    if lane.startswith("lane"):
+        out = f"/tmp/{lane}/out"
+        p = subprocess.run([f"{ROOT}/tools/lane2.sh", patch, prop], env=dict(os.environ, LANE_DIR=f"/tmp/{lane}"), stdout=subprocess.PIPE, stderr=subprocess.STDOUT, text=True)
     else:
         out = ROOT + "/seedout"
         os.makedirs(out, exist_ok=True)
